@@ -129,6 +129,10 @@ Fixpoint no_empties (j : jvalue) : bool :=
   | _ => true
   end.
 
+(* a list of names as a set *)
+Fixpoint s_dedup (l : list ustring) : list ustring :=
+  match l with [] => [] | x :: r => if mem_ustr x r then s_dedup r else x :: s_dedup r end.
+
 Section Valid.
   Variable sw : world.        (* the specification's class tables and registries *)
   Variable pattern_ok : ver -> ustring -> bool.
@@ -199,7 +203,7 @@ Section Valid.
       match k with
       | CAtLeastOne ps => existsb (fun p => jhas p m) ps
       | CAtLeastOneDefault => match s_default_checked c with [] => true | ps => existsb (fun p => jhas p m) ps end
-      | CMutEx ps => Nat.eqb (List.length (filter (fun p => jhas p m) (nodup (list_eq_dec N.eq_dec) ps))) 1
+      | CMutEx ps => Nat.eqb (List.length (filter (fun p => jhas p m) (s_dedup ps))) 1
       | CDepends ps ds =>
         forallb (fun p => forallb (fun dp =>
           if negb (jhas p m) && jhas dp m then false
@@ -310,7 +314,8 @@ Section Valid.
       | KBinary => match j with JStr _ => true | _ => false end
       | KHex => match j with JStr s => strict_hex s | _ => false end
       | KRef white generics specifics vv => match j with JStr s => valid_ref white generics specifics vv s | _ => false end
-      | KSelector => match j with JStr s => re_selector_exact s | _ => false end
+      (* selector syntax: property names are lower-case; a later segment may also be a dictionary key (any case) *)
+      | KSelector => match j with JStr s => re_selector_exact_gen true s | _ => false end
       | KEmbedded cid => valid_obj f cid j
       | KEnum allowed => match j with JStr s => mem_ustr s allowed | _ => false end
       | KObservable vv =>
